@@ -125,6 +125,24 @@ theorem backslash_counterexample : readBack '\'' true (write '\'' ['a', '\\', 'n
 /-- which dialects those are, from the generated table -/
 theorem backslash_dialects : (dialects.filter (·.backslash)).map (·.name) = ["mysql", "bigquery"] := by decide
 
+/-- the hypothesis `Clean` is met by every string without the quote character (ordinary names and texts), whatever precedes it -/
+theorem clean_of_no_quote (q : Char) : ∀ (s : List Char) (p : Char), (∀ c ∈ s, c ≠ q) → Clean q p s
+  | [], _, _ => trivial
+  | c :: rest, _, h =>
+    ⟨fun hc => absurd hc (h c List.mem_cons_self), clean_of_no_quote q rest c (fun x hx => h x (List.mem_cons_of_mem _ hx))⟩
+
+/-- **No two names or texts are written alike**: on the strings the escaping handles, the writer is injective — two different
+identifiers (or literals) never become the same token, in any dialect. -/
+theorem write_injective (q : Char) (s t : List Char) (hs : Clean q (Char.ofNat 0) s) (ht : Clean q (Char.ofNat 0) t)
+    (h : write q s = write q t) : s = t := by
+  have h1 := write_read q s hs
+  rw [h, write_read q t ht] at h1
+  exact (Option.some.inj h1).symm
+
+/-- quote-free strings in particular: every dialect's identifier quoting is injective and readable back on them -/
+theorem ident_plain_round_trip : ∀ d ∈ dialects, ∀ s, (∀ c ∈ s, c ≠ d.write) → readBack d.write false (write d.write s) = some s :=
+  fun d hd s h => ident_round_trip d hd s (clean_of_no_quote d.write s _ h)
+
 /-- Non-vacuity: a reserved word and a name with an embedded quote meet the hypothesis and are written as expected. -/
 example : Clean '`' (Char.ofNat 0) "we`ird".toList ∧ write '`' "we`ird".toList = "`we``ird`".toList ∧ write '"' "select".toList = "\"select\"".toList := by
   refine ⟨by simp [Clean], by decide, by decide⟩
